@@ -3,7 +3,9 @@
    A definition gives, per construct (operands, results, regions), a list of segment definitions
        [kind |-> "single" | "optional" | "variadic", c |-> constraint]
    and an option "none" | "same" (all optional/variadic segments have the same size) | "attr" (sizes are
-   read from a segment-size array).  Constraints on element types:  <<"any">> | <<"eq", tok>> | <<"var", name>>
+   read from a segment-size array).  Constraints on element types:  <<"any">> | <<"eq", tok>> | <<"var", name>> | <<"rvar", name>>
+   (a range variable: the whole segment's type sequence) | <<"ivar", name>> (the segment's LENGTH is an integer variable shared by
+   all segments that mention it)
    (a type variable: every element constrained by it, in every construct, must be the same type).
    An instance gives the element type tokens of each construct and, optionally, the size arrays.
 
@@ -27,7 +29,7 @@ SizesFor(defs, opt, n, attr, hasattr) ==
      /\ (opt = "attr" => hasattr /\ Len(attr) = Len(defs) /\ \A i \in DOMAIN defs : attr[i] = s[i])
      /\ (opt = "same" => \A i, j \in DOMAIN defs : VarLike(defs[i]) /\ VarLike(defs[j]) => s[i] = s[j])}
 
-ElemOK(c, tok, bind) == CASE c[1] = "any" -> TRUE [] c[1] = "eq" -> tok = c[2] [] c[1] = "var" -> bind[c[2]] = tok [] c[1] = "rvar" -> TRUE
+ElemOK(c, tok, bind) == CASE c[1] = "any" -> TRUE [] c[1] = "eq" -> tok = c[2] [] c[1] = "var" -> bind[c[2]] = tok [] c[1] = "rvar" -> TRUE [] c[1] = "ivar" -> TRUE
 PiecesOK(defs, s, elems, bind, rbind) ==
   \A i \in DOMAIN defs :
      /\ \A k \in 1 .. s[i] : ElemOK(defs[i].c, elems[Offset(s, i) + k], bind)
@@ -40,7 +42,10 @@ Accepts(def, inst, Toks) ==
   \E sg \in SizesFor(def.regs, def.gopt, inst.nregs, inst.gsz, inst.hasgsz = 1) :
   \E bind \in [VarNames -> Toks] :
   \E rbind \in UNION {[1 .. k -> Toks] : k \in 0 .. 4} :        \* one range variable "R"
-     PiecesOK(def.ops, so, inst.ops, bind, rbind) /\ PiecesOK(def.res, sr, inst.res, bind, rbind)
+     /\ PiecesOK(def.ops, so, inst.ops, bind, rbind) /\ PiecesOK(def.res, sr, inst.res, bind, rbind)
+     \* one integer variable "N": every segment whose length is constrained by it has the same length (operands and results alike)
+     /\ LET L == {so[i] : i \in {i \in DOMAIN def.ops : def.ops[i].c[1] = "ivar"}} \cup {sr[i] : i \in {i \in DOMAIN def.res : def.res[i].c[1] = "ivar"}}
+        IN Cardinality(L) <= 1
 
 \* the split is unique whenever it exists (at most one optional/variadic segment without option; equal sizes; given sizes)
 TheSizes(defs, opt, n, attr, hasattr) == CHOOSE s \in SizesFor(defs, opt, n, attr, hasattr) : TRUE
